@@ -706,3 +706,165 @@ Proof.
     + destruct (K x Q) as [[]|[n [K1 K2]]]. exists n. split; assumption.
     + exists n. split; [|exact Q']. destruct (F n Q) as [[]|F1]. exact F1.
 Qed.
+
+(* ---------------------------------------------------------------- positional content of the binding lists *)
+
+Lemma children_all_ok {Child Val} (f : Child -> cres Val) mk : forall cs acc errs vals errs',
+  (forall c e, In c cs -> f c <> CRaise e) ->
+  load_children f mk cs acc errs = (vals, errs', SDone) ->
+  exists vs, vals = acc ++ vs /\ Forall2 (fun c b => f c = COk b) cs vs.
+Proof.
+  induction cs as [|c r IH]; intros acc errs vals errs' Hn H; simpl in H.
+  - inversion H. subst. exists []. split; [rewrite app_nil_r; reflexivity|constructor].
+  - destruct (f c) as [v|e|] eqn:E.
+    + destruct (IH _ _ _ _ (fun c0 e0 Hin => Hn c0 e0 (or_intror Hin)) H) as [vs [A B]].
+      exists (v :: vs). split; [rewrite A, <- app_assoc; reflexivity|constructor; assumption].
+    + exfalso. exact (Hn c e (or_introl eq_refl) E).
+    + discriminate.
+Qed.
+
+Section Bound.
+  Variable mk : mask.
+  Variable sc : scope.
+  Variable o : objs.
+  Variable all : list tnode.
+
+  Definition sub_objs (a b : list lnode) : Prop := forall x, In x (map lnode_obj a) -> In x (map lnode_obj b).
+
+  (* a loaded node carries, in order, what each of its children was bound to when it was loaded *)
+  Definition bound_in (l : list lnode) (ln : lnode) : Prop :=
+    exists n pre, In n all /\ fst ln = (n_uid n, n_id n) /\ sub_objs pre l /\
+                  Forall2 (fun c b => load_child sc o pre c = COk b) (n_children n) (snd ln).
+  Definition all_bound (l : list lnode) : Prop := forall ln, In ln l -> bound_in l ln.
+
+  Lemma bound_mono l l' ln : sub_objs l l' -> bound_in l ln -> bound_in l' ln.
+  Proof.
+    intros S [n [pre [A [B [C D]]]]]. exists n, pre. repeat split; auto. intros x Hx. apply S, C, Hx.
+  Qed.
+
+  Lemma pass_bound : forall nodes loaded pending errs succ l' p' e' s' ab,
+    (forall n, In n nodes -> In n all /\ insts_ok sc o n) ->
+    all_bound loaded ->
+    pass mk sc o nodes loaded pending errs succ = (l', p', e', s', ab) ->
+    all_bound l' /\ sub_objs loaded l'.
+  Proof.
+    induction nodes as [|n r IH]; intros loaded pending errs succ l' p' e' s' ab Hg Hb H.
+    - simpl in H. inversion H. subst. split; [exact Hb|intros x Hx; exact Hx].
+    - simpl in H.
+      destruct (load_children (load_child sc o loaded) mk (n_children n) [] errs) as [[vals errs1] st] eqn:E.
+      assert (Hg' : forall n0, In n0 r -> In n0 all /\ insts_ok sc o n0) by (intros n0 Hin; apply Hg; right; exact Hin).
+      destruct st as [|x|].
+      + destruct (Hg n (or_introl eq_refl)) as [Hall Hok].
+        destruct (children_all_ok _ mk _ _ _ _ _ (fun c e Hin => Hok c e loaded Hin) E) as [vs [A B]]. simpl in A. subst vs.
+        assert (S1 : sub_objs loaded (loaded ++ [(n_uid n, n_id n, vals)])).
+        { intros x Hx. unfold sub_objs. rewrite map_app. apply in_or_app. left. exact Hx. }
+        assert (Hb1 : all_bound (loaded ++ [(n_uid n, n_id n, vals)])).
+        { intros ln Hin. apply in_app_or in Hin. destruct Hin as [Hin|[<-|[]]].
+          - apply (bound_mono loaded); [exact S1|apply Hb; exact Hin].
+          - exists n, loaded. repeat split; auto. }
+        destruct (IH _ _ _ _ _ _ _ _ _ Hg' Hb1 H) as [P Q]. split; [exact P|].
+        intros x Hx. apply Q, S1, Hx.
+      + inversion H. subst. split; [exact Hb|intros y Hy; exact Hy].
+      + apply (IH _ _ _ _ _ _ _ _ _ Hg' Hb H).
+  Qed.
+
+  Lemma retry_bound : forall fuel loaded pending errs succ l left e,
+    (forall n, In n pending -> In n all /\ insts_ok sc o n) ->
+    all_bound loaded ->
+    retry mk sc o fuel loaded pending errs succ = NFinished l left e ->
+    all_bound l.
+  Proof.
+    induction fuel as [|f IH]; intros loaded pending errs succ l left e Hg Hb H.
+    - destruct pending; simpl in H; [inversion H; subst; exact Hb|]. destruct succ; [discriminate|inversion H; subst; exact Hb].
+    - destruct pending as [|p ps]; [simpl in H; inversion H; subst; exact Hb|].
+      destruct succ; [|simpl in H; inversion H; subst; exact Hb].
+      rewrite retry_unfold in H.
+      destruct (pass mk sc o (p :: ps) loaded [] errs false) as [[[[l' p'] e'] s'] ab] eqn:E.
+      destruct ab as [x|]; [discriminate|].
+      destruct (pass_bound _ _ _ _ _ _ _ _ _ _ Hg Hb E) as [P _].
+      assert (Hg' : forall n, In n p' -> In n all /\ insts_ok sc o n).
+      { intros n Hin.
+        assert (Hg0 : forall n0, In n0 (p :: ps) -> insts_ok sc o n0) by (intros n0 Hn0; apply Hg; exact Hn0).
+        destruct (pass_good mk sc o _ _ _ _ _ _ _ _ _ _ Hg0 E) as [_ [_ [_ [_ [F _]]]]].
+        destruct (F n Hin) as [[]|F1]. apply Hg. exact F1. }
+      apply (IH _ _ _ _ _ _ _ Hg' P H).
+  Qed.
+
+  Lemma load_group_bound nodes errs l left e :
+    (forall n, In n nodes -> In n all /\ insts_ok sc o n) ->
+    load_group mk sc o nodes [] errs = NFinished l left e -> all_bound l.
+  Proof.
+    intros Hg H. unfold load_group in H.
+    destruct (pass mk sc o nodes [] [] errs false) as [[[[l' p'] e'] s'] ab] eqn:E.
+    destruct ab as [x|]; [discriminate|].
+    assert (Hb0 : all_bound []) by (intros ln []).
+    destruct (pass_bound _ _ _ _ _ _ _ _ _ _ Hg Hb0 E) as [P _].
+    assert (Hg' : forall n, In n p' -> In n all /\ insts_ok sc o n).
+    { intros n Hin.
+      assert (Hg0 : forall n0, In n0 nodes -> insts_ok sc o n0) by (intros n0 Hn0; apply Hg; exact Hn0).
+      destruct (pass_good mk sc o _ _ _ _ _ _ _ _ _ _ Hg0 E) as [_ [_ [_ [_ [F _]]]]].
+      destruct (F n Hin) as [[]|F1]. apply Hg. exact F1. }
+    apply (retry_bound _ _ _ _ _ _ _ _ Hg' P H).
+  Qed.
+End Bound.
+
+Lemma node_uid_unique : forall nodes n, NoDup (map n_id nodes) -> In n nodes -> node_uid nodes (n_id n) = Some (n_uid n).
+Proof.
+  induction nodes as [|m r IH]; intros n Hnd Hin; [contradiction|]. simpl.
+  inversion Hnd as [|? ? Hnot Hnd']. subst.
+  destruct Hin as [->|Hin]; [rewrite N.eqb_refl; reflexivity|].
+  destruct (N.eqb (n_id n) (n_id m)) eqn:E.
+  - exfalso. apply N.eqb_eq in E. apply Hnot. rewrite <- E. apply in_map. exact Hin.
+  - apply IH; assumption.
+Qed.
+
+(* what the loader bound a child to is what the independent reading says *)
+Lemma load_child_is_reading sc o nodes pre final c b :
+  NoDup (map n_id nodes) ->
+  (forall n u, In n nodes -> ~ In (u, n_id n) (lib_list o LNodes)) ->
+  (forall x, In x (map lnode_obj pre) -> In x (map lnode_obj final)) ->
+  (forall x, In x (map lnode_obj final) -> exists n, In n nodes /\ x = (n_uid n, n_id n)) ->
+  (forall t h, c = NNode t h -> exists m, In m nodes /\ n_id m = t) ->
+  load_child sc o pre c = COk b -> read_child o nodes c = Some b.
+Proof.
+  intros Hnd Hlib Hsub Hfin Hdef H. destruct c as [r mats|t h].
+  - simpl in *. destruct (resolve o r) as [u|e]; [|discriminate].
+    destruct (omapM (resolve o) mats) as [ms|e]; [|discriminate]. inversion H. reflexivity.
+  - destruct b as [u ms|u].
+    + simpl in H. destruct h; simpl in H; [|discriminate]. destruct (find_node sc o pre t); discriminate.
+    + destruct (node_binding_carries_id sc o pre t h u H) as [Hh Hin]. subst h. simpl.
+      destruct (Hdef t true eq_refl) as [m [Hm Hmt]].
+      apply in_app_or in Hin. destruct Hin as [Hin|Hin].
+      * exfalso. rewrite <- Hmt in Hin. exact (Hlib m u Hm Hin).
+      * destruct (Hfin _ (Hsub _ Hin)) as [n [Hn E]]. inversion E. subst u t.
+        rewrite (node_uid_unique nodes n Hnd Hn). reflexivity.
+Qed.
+
+(* retry_complete with the positional content of every binding list *)
+Theorem retry_complete_bindings mk sc o nodes errs (rank : ident -> nat) :
+  NoDup (map n_id nodes) ->
+  (forall n u, In n nodes -> ~ In (u, n_id n) (lib_list o LNodes)) ->
+  (forall n, In n nodes -> insts_ok sc o n) ->
+  (forall n t h, In n nodes -> In (NNode t h) (n_children n) ->
+     h = true /\ t <> 0%N /\ exists m, In m nodes /\ n_id m = t /\ rank t < rank (n_id n)) ->
+  exists l,
+    load_group mk sc o nodes [] errs = NFinished l [] errs /\
+    (forall n, In n nodes -> In (n_uid n, n_id n) (map lnode_obj l)) /\
+    (forall ln, In ln l -> exists n, In n nodes /\ fst ln = (n_uid n, n_id n) /\
+                           Forall2 (fun c b => read_child o nodes c = Some b) (n_children n) (snd ln)).
+Proof.
+  intros Hnd Hlib Hg Hdef.
+  destruct (retry_complete mk sc o nodes errs rank Hg Hdef) as [l [R1 [R2 R3]]].
+  exists l. split; [exact R1|]. split; [exact R2|].
+  assert (Hb : all_bound sc o nodes l).
+  { apply (load_group_bound mk sc o nodes nodes errs l [] errs); [|exact R1].
+    intros n Hin. split; [exact Hin|apply Hg; exact Hin]. }
+  intros ln Hin. destruct (Hb ln Hin) as [n [pre [A [B [C D]]]]].
+  exists n. split; [exact A|]. split; [exact B|].
+  revert D. generalize (snd ln). 
+  assert (Hc : forall c, In c (n_children n) -> forall t h, c = NNode t h -> exists m, In m nodes /\ n_id m = t).
+  { intros c Hc t h ->. destruct (Hdef n t h A Hc) as [_ [_ [m [M1 [M2 _]]]]]. exists m. split; assumption. }
+  induction (n_children n) as [|c cs IH]; intros bs D; inversion D; subst; constructor.
+  - apply (load_child_is_reading sc o nodes pre l c y Hnd Hlib C R3); [apply Hc; left; reflexivity|assumption].
+  - apply IH; [intros c0 H0; apply Hc; right; exact H0|assumption].
+Qed.
